@@ -100,6 +100,12 @@ def run(ck, models, tier):
                     cw = [(ev, "entry", d, r, a) for ev, _, d, r, a in cw]
                 nw += len(cw)
                 check_variant(ck, tm, short(p), v, cw)
+                if not any(c_[1] == "entry" for c_ in cw):
+                    # an installation that comes back without a recognised write at the entry either did nothing or modified the code through
+                    # a channel the rules do not follow (a file write to /proc/self/mem, a helper process): no flush can be shown for it
+                    ck.ob("R17.1", "%s/%s/entry-modified-through-a-recognised-write" % (tm.os, short(p)), tm.target, False,
+                          "a path of %s returns normally without any recognised code write at the function's entry: whatever modified the code "
+                          "there (if anything) is not followed by a flush the rules can see [%s]" % (short(p), fmt_dec(v)))
         if g.drop_fn:
             for v in tm.variants(g.drop_fn):
                 if v.status != "returned":
